@@ -5,3 +5,5 @@ BINS += c20_numbers
 c20_numbers_OBJS := c20_numbers
 BINS += c13_wrapped
 c13_wrapped_OBJS := c13_wrapped
+BINS += c07_wto
+c07_wto_OBJS := c07_wto
